@@ -28,7 +28,8 @@ def run(ctx):
     ctx.floor('C14.comparisons', 5000)
     saved = ctx.deadline
     sub = {'quick': 6, 'thorough': 100}[ctx.tier]
-    pool = w_alg.MetaPool(ctx.rng('meta'), anns=('1', '2', "'x'"))
+    # (defaults include unhashable ones: hash() of such a signature raises TypeError, for the plain twin as well)
+    pool = w_alg.MetaPool(ctx.rng('meta'), defaults=('1', '2', '3', '[]', '{}'), anns=('1', '2', "'x'"))
     fpool = w_alg.MetaPool(ctx.rng('meta-future'), anns=('T', 'U'), future=True, globs={'T': int, 'U': str})
     for drv in (lambda c, t: w_alg.drive_merge(c, t, pool=pool),
                 lambda c, t: w_alg.drive_embed(c, t, pool=fpool),
@@ -40,8 +41,45 @@ def run(ctx):
         drv(ctx, ctx.tier)
     ctx.deadline = saved
     ctx.exhaustive.clear()
+    drive_closures(ctx)
     from .. import w_misc
     w_misc.drive_retrieval_clients(ctx, ctx.tier)
+
+
+CLOSURE_SRC = '''
+from __future__ import annotations
+def make(observe):
+    def inner(a: T, b: U = 1, *args: T, **kwargs: U) -> T:
+        return later(a)
+    observe(inner)            # the cell of `later` is still empty here
+    def later(x): return x
+    observe(inner)
+    def watched(f):
+        observe(f)            # a decorator looking at the function it decorates: its own name is not bound yet
+        return f
+    @watched
+    def rec(n: U, m: T = 0, *, k: U = None) -> U:
+        return rec(n - 1, m, k=k) if n else later(n)
+    observe(rec)
+    return inner, rec
+'''
+
+
+def drive_closures(ctx):
+    """Signatures of nested functions compiled with postponed annotations, retrieved while a name they close over
+    is not bound yet (a recursive function inspected by its own decorator; a helper defined further down)."""
+    import sigtools
+    from sigtools import signatures
+    from .. import sigs
+
+    def observe(f):
+        ctx.count('C14.closure_retrievals')
+        for retr in (signatures.signature, sigtools.signature):
+            retr(f)            # (the monitors on the attach points judge what comes back)
+    for eager in (False, True):
+        src = CLOSURE_SRC if not eager else CLOSURE_SRC.replace('from __future__ import annotations\n', '')
+        g = sigs.compile_module(src.lstrip('\n'), globs={'T': int, 'U': str}, tag='vclosure')
+        g['make'](observe)
 
 
 def replay(ctx, rec):
